@@ -2,6 +2,8 @@
 from __future__ import annotations
 
 from . import props_wire
+from . import props_c
+from . import real as R
 
 SIZES = {
     # (schemas, values per message)
@@ -24,6 +26,68 @@ def _c05(run, drv, rng, tier):
     n, k = {"quick": (60, 3), "thorough": (1500, 6)}[tier]
     props_wire.check_c05(run, drv, rng, n, k)
 
+
+def _c03(run, drv, rng, tier):
+    with R.Scratch() as sc:
+        if tier == "quick":
+            props_c.check_copier(run, drv, rng, sc, 4000, False, ("-O2",), "C03")
+            props_c.check_basetype_grid(run, drv, rng, sc, False, ("-O2",), 0.12, "C03")
+            props_c.check_compiled(run, drv, rng, sc, 24, 4, [{"name": "O2", "cflags": ("-O2",)}], "C03")
+        else:
+            for fl in (("-O0",), ("-O2",), ("-O3",)):
+                props_c.check_copier(run, drv, rng, sc, 60000, False, fl, "C03")
+                props_c.check_basetype_grid(run, drv, rng, sc, False, fl, 1.0, "C03")
+            cfgs = [{"name": "O0", "cflags": ("-O0",)}, {"name": "O2", "cflags": ("-O2",)}, {"name": "O3", "cflags": ("-O3",)},
+                    {"name": "O2-single-TU", "cflags": ("-O2",), "single_tu": True},
+                    {"name": "O1-asan-ubsan", "cflags": ("-O1", "-fsanitize=undefined", "-fno-sanitize=alignment", "-fno-sanitize-recover=all")}]
+            props_c.check_compiled(run, drv, rng, sc, 250, 6, cfgs, "C03")
+
+
+def _c06(run, drv, rng, tier):
+    with R.Scratch() as sc:
+        n, frac = (3000, 0.25) if tier == "quick" else (80000, 1.0)
+        props_c.check_copier(run, drv, rng, sc, n, True, ("-O2",), "C06")
+        props_c.check_basetype_grid(run, drv, rng, sc, True, ("-O2",), frac, "C06")
+        props_c.check_basetype_grid(run, drv, rng, sc, False, ("-O2",), frac / 2, "C06")
+        if tier == "thorough":
+            props_c.check_basetype_grid(run, drv, rng, sc, True, ("-O0",), 1.0, "C06")
+        from . import props_op
+        props_op.check_c06_opmode(run, drv, rng, sc, 10 if tier == "quick" else 150)
+
+
+def _c07(run, drv, rng, tier):
+    q = tier == "quick"
+    with R.Scratch() as sc:
+        props_c.check_size_constants(run, drv, rng, sc, 40 if q else 800)
+        props_c.check_copier(run, drv, rng, sc, 2500 if q else 60000, False, ("-O2",), "C07")
+        props_c.check_compiled(run, drv, rng, sc, 14 if q else 200, 4 if q else 8, [{"name": "O2-overdriven", "cflags": ("-O2",)}],
+                               "C07", overdriven=True)
+        if not q:
+            props_c.check_compiled(run, drv, rng, sc, 80, 6,
+                                   [{"name": "asan", "cflags": ("-O1", "-fsanitize=address,undefined", "-fno-sanitize=alignment",
+                                                                "-fno-sanitize-recover=all", "-static-libasan")}], "C07")
+        from . import props_op
+        props_op.check_c07_opmode(run, drv, rng, sc, 8 if q else 120)
+    props_c.check_py_overdrive(run, drv, rng, 40 if q else 800, 4 if q else 8)
+
+
+def _c14(run, drv, rng, tier):
+    q = tier == "quick"
+    with R.Scratch() as sc:
+        for be in (False, True):
+            for fl in ((("-O2",),) if q else (("-O0",), ("-O2",))):
+                props_c.check_basetype_grid(run, drv, rng, sc, be, fl, 1.0, "C14")
+        from . import props_op
+        props_op.check_c14_opmode(run, drv, rng, sc, 0.08 if q else 1.0)
+    props_c.check_c14_python(run, drv, rng, 0.25 if q else 1.0)
+    run.coverage["exhaustive"] = not q
+
+
+C_ASSUME = [
+    "C abstract machine on an LP64 little-endian target as modelled in Model/CRt*.lean (integer promotions, casts, sizeof of fixed-width types, contiguous arrays); struct padding abstracted (cells addressed through descriptor pointers)",
+    "the C compiler/optimiser is outside the model: the optimisation-level x translation-unit grid is executed as validation only",
+    "descriptor tables emitted by the C renderer are tied by executing the generated code, not by a theorem",
+]
 
 PY_ASSUME = [
     "CPython semantics used by bp.py and the generated code (unbounded ints, bytearray range check, dataclasses, IntEnum) are as modelled in Model/PyRt.lean",
@@ -74,5 +138,51 @@ PROPS = {
                 "non-trivial = pair whose types really differ, distinct by (old shape, new shape)",
         "assumptions": PY_ASSUME + ["C runtime: tied by execution only in this check until the CRt model covers messages (see C03)",
                                     "Go runtime: same formula by inspection; Go is never executed here"],
+    },
+    "C03": {
+        "modules": ["BpModel.Props.C03"],
+        "theorems": ["Bp.C03.C03_c_encode", "Bp.C03.C03_c_decode", "Bp.C03.C03_interop", "Bp.C03.C03_copier",
+                     "Bp.C03.C03_batch_eq_loop", "Bp.C03.C03_sign", "Bp.C03.C03_storage_tied"],
+        "explore": _c03,
+        "correspondence": "c.copybits / c.encode / c.decode vs lib/c/bitproto.c and generated C through gcc + ctypes",
+        "rule": "direct ctypes calls to BpCopyBufferBits (random n, di, si, memory; guard zones) and "
+                "BpEndecodeBaseType/Int over the (kind, offset) grid with basis values; generated schemas compiled "
+                "with gcc and executed (Encode on zeroed buffer, Decode into zeroed struct); distinct by first copier "
+                "path / (kind,width,offset) / leaf triples per config",
+        "assumptions": C_ASSUME,
+    },
+    "C06": {
+        "modules": ["BpModel.Props.C06"],
+        "theorems": ["Bp.C06.C06_rt_encode", "Bp.C06.C06_rt_decode", "Bp.C06.C06_stage_in", "Bp.C06.C06_stage_out",
+                     "Bp.C06.C06_copier_build_indep", "Bp.C06.C06_leaf", "Bp.C06.C06_detect"],
+        "explore": _c06,
+        "correspondence": "c.copybits (be) / base-type grid vs the -DBP_BIG_ENDIAN build fed byte-reversed cells",
+        "rule": "the -DBP_BIG_ENDIAN runtime on this x86 host fed byte-reversed storage (the property's observation "
+                "point): copier calls and the complete (kind, offset) grid; optimisation-mode big-endian branch vs "
+                "little-endian branch on generated traditional schemas",
+        "assumptions": C_ASSUME + ["a real big-endian CPU/compiler is outside the model and the sandbox; sign fix-up of "
+                                   "non-standard signed widths reads a native integer and is applied natively in the emulation"],
+    },
+    "C07": {
+        "modules": ["BpModel.Props.C07"],
+        "theorems": ["Bp.C07.C07_size_const", "Bp.C07.C07_leaf_low_bits", "Bp.C07.C07_spec_mask", "Bp.C07.C07_py_mask",
+                     "Bp.C07.C07_c_mask", "Bp.C07.C07_c_encode_in_bounds", "Bp.C07.C07_c_decode_in_bounds",
+                     "Bp.C07.C07_py_in_bounds", "Bp.C07.C07_copier_bounds"],
+        "explore": _c07,
+        "correspondence": "size constants parsed from .h/.go/.py; guard zones around buffers and structs; overdriven fields",
+        "rule": "size constants of every message in the three outputs vs ceil(N/8); C Encode/Decode between 0xA5 guard "
+                "zones with integer cells holding arbitrary 64-bit patterns; Python encode with arbitrary ints in "
+                "integer fields; thorough: ASan/UBSan build (alignment check excluded)",
+        "assumptions": C_ASSUME + PY_ASSUME,
+    },
+    "C14": {
+        "modules": ["BpModel.Props.C14"],
+        "theorems": ["Bp.C14.frames_wf", "Bp.C14.batch_table", "Bp.C14.C14"],
+        "explore": _c14,
+        "correspondence": "complete finite (kind, offset, position) space executed on the Python and C runtimes",
+        "rule": "130 kinds x 8 offsets x {scalar, array element, alias, array of alias} with zero/all-ones/every "
+                "single bit/min/max/-1 + random values; C little- and big-endian builds always complete, Python and "
+                "the optimisation-mode generator a seeded fraction in the quick tier, complete in the thorough tier",
+        "assumptions": C_ASSUME + PY_ASSUME,
     },
 }
